@@ -415,13 +415,31 @@ fn main() {
 				Seen::Ok(v) => v.clone(),
 			};
 			if has_replay { n_replay += 1; }
+			// ---- reconciliation of queued forwards with the monitors of the channels that are closed at load time (legacy reload
+			// path): what the manager copy had queued, what those monitors list as forwarded, what is still queued after the read
+			if !w.rebuild {
+				let refs = |v: &Vec<(usize, u64)>| -> String { if v.is_empty() { "-".into() } else { v.iter().map(|(c, i)| format!("{}:{}", c, i)).collect::<Vec<_>>().join(",") } };
+				let mut mons_h: Vec<(usize, u64)> = vec![];
+				for k in 0..my.len() { if pre_closed[k] || chans[k].0 { mons_h.extend(mv[k].prev_hops.iter().cloned()); } }
+				mons_h.sort(); mons_h.dedup();
+				let (kept_f, kept_d) = queued_of(&net, t);
+				let q0 = &wpts[w.q];
+				if !(q0.queued_fwd.is_empty() && q0.queued_dec.is_empty()) {
+					let collide = q0.queued_fwd.iter().chain(q0.queued_dec.iter()).any(|(c, i)| mons_h.iter().any(|(mc, mi)| mi == i && mc != c));
+					let hit = q0.queued_fwd.iter().chain(q0.queued_dec.iter()).any(|x| mons_h.contains(x));
+					rec.case(&format!("reconcile {} {} {}", refs(&q0.queued_fwd), refs(&q0.queued_dec), refs(&mons_h)), &format!("{} | {}", refs(&kept_f), refs(&kept_d)),
+						&format!("reconcile:{}{}{}", if mons_h.is_empty() { "no-closed-monitor-htlc" } else { "closed-monitor-htlcs" }, if hit { "+already-forwarded" } else { "" }, if collide { "+id-collision-across-channels" } else { "" }), true);
+					if trace_on { eprintln!("    reconcile {} {} {} => {} | {}", refs(&q0.queued_fwd), refs(&q0.queued_dec), refs(&mons_h), refs(&kept_f), refs(&kept_d)); }
+				}
+			}
 			// KF-C10-3 pattern: the manager copy holds blocked updates, the channel is resumed with a monitor copy past the manager's
 			// released id (so blocked updates are dropped as completed), and between the manager write and that monitor copy a
 			// preimage update jumped ahead of the blocked ones (their ids were bumped): same id, different content
-			let kf3 = (0..my.len()).any(|k| { let c = qv[k].chan.unwrap(); c[5] > 0 && !chans[k].0 && mv[k].mon_id > c[1] && jumps[k].iter().any(|j| w.q < *j && *j <= w.mon_pts[k]) });
+			let kf3 = open_q.iter().any(|&k| { let c = qv[k].chan.unwrap(); c[5] > 0 && !chans[k].0 && mv[k].mon_id > c[1] && jumps[k].iter().any(|j| w.q < *j && *j <= w.mon_pts[k]) });
 			let kf3_text = "KF-C10-3 blocked monitor update dropped although the monitor never received it: a preimage update took the blocked update's id after the manager was written (ids of blocked updates are renumbered), so manager and monitor agree on the id but not on the content; on_startup_drop_completed_blocked_mon_updates_through discards the held revoke_and_ack update and the monitor permanently misses that revocation secret / counterparty commitment";
 			let mut any_closed = false;
 			for k in 0..my.len() {
+				if pre_closed[k] { any_closed = true; continue; } // closed before the manager was written
 				let older = qv[k].chan.unwrap()[0] < mv[k].mon_id;
 				if chans[k].0 { any_closed = true; }
 				if older && !chans[k].0 { rec.oracle_fail(format!("{}: channel {} has manager update id {} < monitor update id {} but was NOT closed with OutdatedChannelManager [{}]", tag, my[k].0, qv[k].chan.unwrap()[0], mv[k].mon_id, op)); }
@@ -438,12 +456,15 @@ fn main() {
 				let same_mons = (w.p + w.q) % 4 == 0;
 				let mons2: Vec<Vec<u8>> = if same_mons { mons.clone() } else { my.iter().map(|(_, _, cid)| net.nodes[t].chain_monitor.chain_monitor.get_monitor(*cid).unwrap().encode()).collect() };
 				if !same_mons { mon2_ids = Some(my.iter().map(|(_, _, cid)| net.nodes[t].chain_monitor.chain_monitor.get_monitor(*cid).unwrap().get_latest_update_id()).collect()); }
+				vh::RELOAD_RECONSTRUCT_FROM_MONITORS.store(w.rebuild, std::sync::atomic::Ordering::Relaxed);
 				let seen2 = match guarded(AssertUnwindSafe(|| observe_restart(&mut net, t, mgr, &mons2, &unblocked))) { Ok(s) => s, Err(e) => Seen::Err(format!("PANIC {}", e)) };
+				vh::RELOAD_RECONSTRUCT_FROM_MONITORS.store(false, std::sync::atomic::Ordering::Relaxed);
 				match &seen2 {
 					Seen::Err(e) => { rec.oracle_fail(format!("{}: SECOND restart ({}) failed: {}", tag, if same_mons { "same monitors" } else { "monitors after replay" }, e.chars().take(160).collect::<String>())); std::mem::forget(net); continue; },
 					Seen::Ok(v2) => {
 						for k in 0..my.len() {
 							// fresh updates generated during the first recovery and persisted make the (unchanged) manager older than its monitor
+							if pre_closed[k] { continue; }
 							let newer = mon2_ids.as_ref().map(|m| m[k] > qv[k].chan.unwrap()[0]).unwrap_or(false);
 							if newer && v2[k].0 && !chans[k].0 { closed2[k] = true; continue; }
 							if v2[k].0 != chans[k].0 { rec.oracle_fail(format!("{}: second restart ({}) closed={} but first closed={} for channel {}", tag, if same_mons { "same monitors" } else { "monitors after replay" }, v2[k].0, chans[k].0, my[k].0)); }
@@ -479,24 +500,24 @@ fn main() {
 			}
 			n_settled += 1;
 			if std::env::var("VERIF_C10_PROBE").is_ok() {
-				let stuck = (0..3).any(|i| net.nodes[i].node.list_channels().iter().any(|c| !c.pending_inbound_htlcs.is_empty() || !c.pending_outbound_htlcs.is_empty()));
+				let stuck = (0..nn).any(|i| net.nodes[i].node.list_channels().iter().any(|c| !c.pending_inbound_htlcs.is_empty() || !c.pending_outbound_htlcs.is_empty()));
 				if stuck {
 					for (ci, _, cid) in chans_of(&net, t) { let id = net.nodes[t].chain_monitor.chain_monitor.get_monitor(cid).unwrap().get_latest_update_id(); net.complete(t, ci, id); }
 					for _ in 0..6 { net.settle(8); for p in 0..net.pays.len() { let to = net.pays[p].to; let h = net.pays[p].hash; if net.claimable[to].iter().any(|c| c.0 == h) { net.claimable[to].retain(|c| c.0 != h); net.claim(p); } } }
-					let stuck2 = (0..3).any(|i| net.nodes[i].node.list_channels().iter().any(|c| !c.pending_inbound_htlcs.is_empty() || !c.pending_outbound_htlcs.is_empty()));
+					let stuck2 = (0..nn).any(|i| net.nodes[i].node.list_channels().iter().any(|c| !c.pending_inbound_htlcs.is_empty() || !c.pending_outbound_htlcs.is_empty()));
 					eprintln!("PROBE: stuck before; after a spurious channel_monitor_updated at t: stuck={}", stuck2);
 				}
 			}
 			// KF-C10-1 pattern: the manager was written while monitor updates were blocked and none was in flight, and the
 			// monitor on disk already contains every one of those blocked updates
-			let kf1 = (0..my.len()).any(|k| { let c = qv[k].chan.unwrap(); c[5] > 0 && qv[k].inflight.is_empty() && !chans[k].0 && (mv[k].mon_id >= c[0] || mon2_ids.as_ref().map(|m| m[k] >= c[0]).unwrap_or(false)) });
+			let kf1 = open_q.iter().any(|&k| { let c = qv[k].chan.unwrap(); c[5] > 0 && qv[k].inflight.is_empty() && !chans[k].0 && (mv[k].mon_id >= c[0] || mon2_ids.as_ref().map(|m| m[k] >= c[0]).unwrap_or(false)) });
 			let mut fails: Vec<String> = vec![];
 			// no payment both sent and failed
 			let mut sent: BTreeSet<[u8; 32]> = BTreeSet::new(); let mut failed: BTreeSet<[u8; 32]> = BTreeSet::new(); let mut claimed1: BTreeMap<[u8; 32], u64> = BTreeMap::new();
-			for i in 0..3 { for e in &net.events[i] { match e {
+			for i in 0..nn { for e in &net.events[i] { match e {
 				Event::PaymentSent { payment_hash, .. } => { sent.insert(payment_hash.0); },
 				Event::PaymentFailed { payment_hash: Some(h), .. } => { failed.insert(h.0); },
-				Event::PaymentClaimed { payment_hash, amount_msat, .. } if i == 1 => { claimed1.insert(payment_hash.0, *amount_msat); },
+				Event::PaymentClaimed { payment_hash, amount_msat, .. } if i == fwd_node(topo) => { claimed1.insert(payment_hash.0, *amount_msat); },
 				_ => {},
 			} } }
 			for h in sent.intersection(&failed) {
@@ -513,17 +534,33 @@ fn main() {
 					fails.push(format!("{}: node {} sent {} on channel {} after closing it as OutdatedChannelManager", tag, t, kind, chan)); } } }
 			} }
 			if !any_closed {
-				for i in 0..3 { for c in net.nodes[i].node.list_channels() { if !c.pending_inbound_htlcs.is_empty() || !c.pending_outbound_htlcs.is_empty() {
+				for i in 0..nn { for c in net.nodes[i].node.list_channels() { if !c.pending_inbound_htlcs.is_empty() || !c.pending_outbound_htlcs.is_empty() {
 					fails.push(format!("{}: node {} still has {} inbound / {} outbound HTLCs pending on channel {} after settling", tag, i, c.pending_inbound_htlcs.len(), c.pending_outbound_htlcs.len(), net.chan_idx(&c.channel_id))); } } }
 				for (pi, p) in net.pays.iter().enumerate() { if p.from == t && pi >= wpts[w.q].n_pays { continue; } // sent by t after its manager was written: lost with the crash
 					if !sent.contains(&p.hash.0) && !failed.contains(&p.hash.0) { fails.push(format!("{}: payment {} ({}→{}, {} msat) has no terminal event at its sender", tag, hex(&p.hash.0[..4]), p.from, p.to, p.amt)); } }
 				for o in &net.trace[trace_mark..] { if let Obs::ProtoError { node, text } = o { fails.push(format!("{}: protocol error at node {} after the restart: {}", tag, node, text.chars().take(120).collect::<String>())); } }
 				if net.closed.len() > 0 { fails.push(format!("{}: channel closed after the restart: {:?}", tag, net.closed)); }
-				if let (Some(b0), Some(b1)) = (start_bal1, sum_value_to_self(&net, 1)) {
-					let paid: u64 = net.pays.iter().filter(|p| p.from == 1 && sent.contains(&p.hash.0)).map(|p| p.amt).sum();
+				if let (Some(b0), Some(b1)) = (start_bal1, sum_value_to_self(&net, fwd_node(topo))) {
+					let paid: u64 = net.pays.iter().filter(|p| p.from == fwd_node(topo) && sent.contains(&p.hash.0)).map(|p| p.amt).sum();
 					let got: u64 = claimed1.values().sum();
 					if b1 + paid < b0 + got { fails.push(format!("{}: forwarding node lost money: Σ value_to_self {} → {} (paid {} itself, was paid {})", tag, b0, b1, paid, got)); }
 				}
+			}
+			// every HTLC committed on an inbound channel of t is, once everything is quiet, either resolved or backed by an outbound
+			// HTLC that one of t's monitors still tracks (it was forwarded, possibly over a channel that is closed now) — an HTLC that
+			// was only QUEUED for forwarding at the crash must have been forwarded or failed back, never forgotten
+			{
+				let mut backed: BTreeSet<(ChannelId, u64)> = BTreeSet::new();
+				for (_, _, cid) in chans_of(&net, t) { if let Ok(m) = net.nodes[t].chain_monitor.chain_monitor.get_monitor(cid) { for x in vh::monitor_outbound_htlc_prev_hops(&m) { backed.insert(x); } } }
+				let q0 = &wpts[w.q];
+				for c in net.nodes[t].node.list_channels() { let ci = net.chan_idx(&c.channel_id); for h in &c.pending_inbound_htlcs {
+					if net.pays.iter().any(|p| p.hash == h.payment_hash && p.to == t) { continue; } // t is the recipient: the application decides
+					if !backed.contains(&(c.channel_id, h.htlc_id)) {
+						let was_queued = q0.queued_fwd.contains(&(ci, h.htlc_id)) || q0.queued_dec.contains(&(ci, h.htlc_id));
+						fails.push(format!("{}: HTLC stuck on inbound channel after restart: channel {} htlc id {} ({} msat) is still committed at node {}, was neither forwarded nor failed back{} [{}]", tag, ci, h.htlc_id, h.amount_msat, t,
+							if was_queued { "; it was QUEUED for forwarding in the manager that was reloaded" } else { "" }, op));
+					}
+				} }
 			}
 			// once settled, a channel with nothing blocked and nothing in flight is in sync with its monitor
 			let mut out_of_sync = vec![];
@@ -542,7 +579,7 @@ fn main() {
 				fails.clear(); out_of_sync.clear();
 			}
 			fails.extend(out_of_sync);
-			if kf1 && fails.iter().any(|f| f.contains("HTLCs pending")) {
+			if kf1 && fails.iter().any(|f| f.contains("HTLCs pending") || f.contains("HTLC stuck")) {
 				rec.oracle_fail(format!("KF-C10-1 channel stays paused after a restart that drops completed blocked monitor updates: the manager was written with blocked updates and nothing in flight, the monitor on disk contains them all, no MonitorUpdatesComplete is queued, revoke_and_ack is never sent :: {} [{}] :: {} symptoms, first: {}", tag, op, fails.len(), fails[0]));
 			} else { for f in fails { rec.oracle_fail(f); } }
 			if trace_on && std::env::var("VERIF_TRACE").map(|v| v == "2").unwrap_or(false) { for (k, o) in net.trace.iter().enumerate() { if k == trace_mark { eprintln!("      ---------------- crash"); } if !matches!(o, Obs::Balance { .. }) { eprintln!("      {}", fmt_obs(o)); } } }
